@@ -46,6 +46,26 @@ Proof.
   - intros y Hy. apply H, Hm, Hy.
 Qed.
 
+Lemma last_cases (x : pt) l Af a : x :: l = Af ++ [a] -> (a = x /\ l = []) \/ In a l.
+Proof.
+  destruct Af as [|h Af']; cbn; intros E.
+  - injection E as -> ->. auto.
+  - injection E as _ ->. right. apply in_or_app. right. left. reflexivity.
+Qed.
+
+Lemma hd_cases (l : list pt) x q Br : l ++ [x] = q :: Br -> (q = x /\ l = []) \/ In q l.
+Proof.
+  destruct l as [|h l']; cbn; intros E.
+  - injection E as -> _. auto.
+  - injection E as -> _. right. left. reflexivity.
+Qed.
+
+Lemma app_last_cons (l : list pt) x : exists q r, l ++ [x] = q :: r.
+Proof. destruct l; cbn; eauto. Qed.
+
+Lemma nil_or_cons (l : list pt) : l = [] \/ exists y l', l = y :: l'.
+Proof. destruct l; eauto. Qed.
+
 (* ------------------------------------------------------------------ the ring *)
 Section Ring.
   Variable S : pt -> Prop.
@@ -120,14 +140,16 @@ Section Ring.
     (forall p q r, S p -> S q -> S r -> cross p q r = 0) -> L = [] /\ U = [].
   Proof.
     intros Hc. split.
-    - destruct L as [|y L']; [reflexivity|]. exfalso.
-      assert (cross x0 xm y < 0) by (apply L_inner; left; reflexivity).
+    - destruct (nil_or_cons L) as [E|(y & L' & E)]; [exact E|]. exfalso.
+      assert (Hy : In y L) by (rewrite E; left; reflexivity).
+      assert (cross x0 xm y < 0) by (apply L_inner, Hy).
       rewrite Hc in H; [lia|assumption|assumption|].
-      apply (cc_mem _ _ _ _ _ HL). right. left. reflexivity.
-    - destruct U as [|y U']; [reflexivity|]. exfalso.
-      assert (cross xm x0 y < 0) by (apply U_inner; left; reflexivity).
+      apply (cc_mem _ _ _ _ _ HL). right. apply in_or_app. auto.
+    - destruct (nil_or_cons U) as [E|(y & U' & E)]; [exact E|]. exfalso.
+      assert (Hy : In y U) by (rewrite E; left; reflexivity).
+      assert (cross xm x0 y < 0) by (apply U_inner, Hy).
       rewrite Hc in H; [lia|assumption|assumption|].
-      apply (cc_mem _ _ _ _ _ HU). right. left. reflexivity.
+      apply (cc_mem _ _ _ _ _ HU). right. apply in_or_app. auto.
   Qed.
 
   Lemma ring_nil_collinear :
@@ -136,11 +158,11 @@ Section Ring.
     intros EL EU.
     assert (H0 : forall p, S p -> cross x0 xm p = 0).
     { intros p Hp.
-      assert (cross x0 xm p >= 0).
+      assert (G1 : cross x0 xm p >= 0).
       { apply (cc_edges _ _ _ _ _ HL [] x0 xm []); [rewrite EL; reflexivity|exact Hp]. }
-      assert (cross xm x0 p >= 0).
+      assert (G2 : cross xm x0 p >= 0).
       { apply (cc_edges _ _ _ _ _ HU [] xm x0 []); [rewrite EU; reflexivity|exact Hp]. }
-      rewrite cross_flip in H1. lia. }
+      rewrite cross_flip in G2. lia. }
     intros p q r Hp Hq Hr. apply (collinear_with_base x0 xm); auto.
     intros E. subst xm. apply (lt2_irrefl x0 Hlt).
   Qed.
@@ -156,38 +178,15 @@ Section Ring.
     { intros [EL EU]. apply Hnc. apply ring_nil_collinear; assumption. }
     (* the vertex before xm and the vertex after xm *)
     destruct (exists_last (l := x0 :: L)) as (Af & a & EA); [discriminate|].
-    destruct (U ++ [x0]) as [|q Br] eqn:EB; [destruct U; discriminate|].
+    destruct (app_last_cons U x0) as (q & Br & EB).
     (* the vertex before the closing x0 and the vertex after the opening x0 *)
     destruct (exists_last (l := xm :: U)) as (Cf & b & EC); [discriminate|].
-    destruct (L ++ [xm]) as [|sec Dr] eqn:ED; [destruct L; discriminate|].
+    destruct (app_last_cons L xm) as (sec & Dr & ED). rewrite ED.
     cbn [hd].
-    assert (Ha : a = x0 /\ L = [] \/ In a L).
-    { destruct L as [|y L'].
-      - left. split; [|reflexivity]. destruct Af as [|? [|? ?]]; cbn in EA; try discriminate.
-        injection EA as <-. reflexivity.
-      - right. assert (In a (x0 :: y :: L')) by (rewrite EA; apply in_or_app; right; left; reflexivity).
-        destruct H as [<-|H]; [|exact H]. exfalso.
-        assert (NoDup (Af ++ [x0])) by (rewrite <- EA; apply (NoDup_app_remove_r _ (xm :: U)); rewrite <- app_comm_cons; apply ring_nodup).
-        destruct Af as [|h Af']; cbn in EA; [discriminate|]. injection EA as <- EA.
-        inversion H as [|? ? Hn _]. apply Hn. apply in_or_app. right. left. reflexivity. }
-    assert (Hq : q = x0 /\ U = [] \/ In q U).
-    { destruct U as [|y U']; cbn in EB.
-      - left. injection EB as <- _. auto.
-      - right. injection EB as <- _. left; reflexivity. }
-    assert (Hb : b = xm /\ U = [] \/ In b U).
-    { destruct U as [|y U'].
-      - left. split; [|reflexivity]. destruct Cf as [|? [|? ?]]; cbn in EC; try discriminate.
-        injection EC as <-. reflexivity.
-      - right. assert (In b (xm :: y :: U')) by (rewrite EC; apply in_or_app; right; left; reflexivity).
-        destruct H as [<-|H]; [|exact H]. exfalso.
-        assert (NoDup ((xm :: y :: U') ++ [x0])) by (rewrite <- app_comm_cons; apply (sorted_NoDup gt2 gt2_irrefl), (cc_sorted _ _ _ _ _ HU)).
-        apply NoDup_remove_1 in H. rewrite app_nil_r, EC in H.
-        destruct Cf as [|h Cf']; cbn in EC; [discriminate|]. injection EC as <- EC.
-        inversion H as [|? ? Hn _]. apply Hn. apply in_or_app. right. left. reflexivity. }
-    assert (Hsec : sec = xm /\ L = [] \/ In sec L).
-    { destruct L as [|y L']; cbn in ED.
-      - left. injection ED as <- _. auto.
-      - right. injection ED as <- _. left; reflexivity. }
+    assert (Ha : a = x0 /\ L = [] \/ In a L) by (apply (last_cases x0 L Af a EA)).
+    assert (Hq : q = x0 /\ U = [] \/ In q U) by (apply (hd_cases U x0 q Br EB)).
+    assert (Hb : b = xm /\ U = [] \/ In b U) by (apply (last_cases xm U Cf b EC)).
+    assert (Hsec : sec = xm /\ L = [] \/ In sec L) by (apply (hd_cases L xm sec Dr ED)).
     (* the turn at xm *)
     assert (Jm : cross a xm q > 0).
     { apply (geoJ_lt x0 xm a q Hlt).
@@ -226,6 +225,225 @@ Section Ring.
       pose proof (cc_turns _ _ _ _ _ HL) as H.
       rewrite app_comm_cons, EA, <- app_assoc in H. exact H. }
     replace (ring ++ [sec]) with (Af ++ a :: xm :: q :: Br ++ [sec]); [exact T3|].
-    unfold ring. rewrite app_comm_cons, EA, EB, <- !app_assoc. reflexivity.
+    unfold ring. change (x0 :: L ++ xm :: U ++ [x0]) with ((x0 :: L) ++ xm :: U ++ [x0]).
+    rewrite EA, EB, <- !app_assoc. reflexivity.
   Qed.
 End Ring.
+
+Record IsRing (S : pt -> Prop) (x0 xm : pt) (L U : list pt) : Prop := {
+  ir_L : CChain lt2 S x0 xm (x0 :: L ++ [xm]);
+  ir_U : CChain gt2 S xm x0 (xm :: U ++ [x0]);
+  ir_0 : S x0;
+  ir_m : S xm;
+  ir_lt : lt2 x0 xm;
+  ir_min : forall p, S p -> p = x0 \/ lt2 x0 p;
+  ir_max : forall p, S p -> p = xm \/ lt2 p xm
+}.
+
+Lemma hd_rev (l : list pt) : hd d0 (rev l) = last l d0.
+Proof.
+  destruct (nil_or_cons l) as [->|(y & l' & ->)]; [reflexivity|].
+  destruct (exists_last (l := y :: l')) as (l1 & z & ->); [discriminate|].
+  rewrite rev_app_distr, last_last. reflexivity.
+Qed.
+
+Lemma last_rev (l : list pt) : last (rev l) d0 = hd d0 l.
+Proof. rewrite <- (rev_involutive l) at 2. rewrite hd_rev. reflexivity. Qed.
+
+(* the body of convex_hull on a strictly increasing list of at least two points *)
+Lemma hull_sorted_ring x y t :
+  StronglySorted lt2 (x :: y :: t) ->
+  exists xm L U, IsRing (fun p => In p (x :: y :: t)) x xm L U /\
+                 hull_sorted (x :: y :: t) = ring x xm L U.
+Proof.
+  intros Hs. set (s := x :: y :: t) in *.
+  assert (Hl : CChain lt2 (fun p => In p s) x (last s d0) (chain s)).
+  { apply lower_cchain; [exact Hs|discriminate]. }
+  assert (Hr : StronglySorted gt2 (rev s)) by (apply (sorted_rev lt2), Hs).
+  assert (Hu : CChain gt2 (fun p => In p s) (last s d0) x (chain (rev s))).
+  { destruct (rev s) as [|r0 rl] eqn:Er.
+    - exfalso. apply (f_equal (@length pt)) in Er. rewrite rev_length in Er. discriminate.
+    - assert (E0 : r0 = last s d0) by (rewrite <- hd_rev, Er; reflexivity).
+      assert (E1 : last (r0 :: rl) d0 = x) by (rewrite <- Er, last_rev; reflexivity).
+      assert (Hne : rl <> []).
+      { intros ->. apply (f_equal (@length pt)) in Er. rewrite rev_length in Er. discriminate. }
+      pose proof (upper_cchain r0 rl Hr Hne) as H. rewrite E1 in H.
+      rewrite <- E0.
+      apply (CChain_ext gt2 (fun p => In p (r0 :: rl))); [|exact H].
+      intros p. rewrite <- Er. symmetry. apply in_rev. }
+  destruct (cc_shape _ _ _ _ _ Hl) as (L & EL).
+  destruct (cc_shape _ _ _ _ _ Hu) as (U & EU).
+  exists (last s d0), L, U. split.
+  - assert (Hx : In x s) by (left; reflexivity).
+    assert (Hz : In (last s d0) s) by (apply last_In; discriminate).
+    constructor.
+    + rewrite <- EL. exact Hl.
+    + rewrite <- EU. exact Hu.
+    + exact Hx.
+    + exact Hz.
+    + destruct (sorted_last_max lt2 s x Hs Hx) as [E|?]; [|assumption].
+      exfalso. assert (Hy : In (last s d0) (y :: t)).
+      { unfold s. change (last (x :: y :: t) d0) with (last (y :: t) d0). apply last_In. discriminate. }
+      inversion Hs as [|? ? _ Hf]. rewrite Forall_forall in Hf.
+      apply (lt2_irrefl x). rewrite E at 2. apply Hf, Hy.
+    + intros p Hp. apply (sorted_hd_min lt2 x (y :: t) p Hs Hp).
+    + intros p Hp. apply (sorted_last_max lt2 s p Hs Hp).
+  - change (hull_sorted s) with (removelast (chain s) ++ chain (rev s)).
+    rewrite EL, EU. rewrite app_comm_cons, removelast_last. unfold ring.
+    rewrite <- app_comm_cons. reflexivity.
+Qed.
+
+Lemma IsRing_ext (S S' : pt -> Prop) x0 xm L U :
+  (forall p, S p <-> S' p) -> IsRing S x0 xm L U -> IsRing S' x0 xm L U.
+Proof.
+  intros H [H1 H2 H3 H4 H5 H6 H7]. constructor.
+  - apply (CChain_ext lt2 S); assumption.
+  - apply (CChain_ext gt2 S); assumption.
+  - apply H, H3.
+  - apply H, H4.
+  - exact H5.
+  - intros p Hp. apply H6, H, Hp.
+  - intros p Hp. apply H7, H, Hp.
+Qed.
+
+(* the three shapes of the result *)
+Lemma hull_cases l :
+  (l = [] /\ hull l = []) \/
+  (exists x, In x l /\ (forall p, In p l -> p = x) /\ hull l = [x]) \/
+  (exists x0 xm L U, IsRing (fun p => In p l) x0 xm L U /\ hull l = ring x0 xm L U).
+Proof.
+  unfold hull. pose proof (dedup_sort_sorted l) as Hs. pose proof (dedup_sort_In l) as Hm.
+  destruct (dedup_sort l) as [|x [|y t]].
+  - left. split; [|reflexivity]. destruct l as [|a l']; [reflexivity|].
+    exfalso. apply (Hm a). left; reflexivity.
+  - right; left. exists x. split; [apply Hm; left; reflexivity|]. split; [|reflexivity].
+    intros p Hp. apply Hm in Hp. destruct Hp as [<-|[]]. reflexivity.
+  - right; right. destruct (hull_sorted_ring x y t Hs) as (xm & L & U & HR & E).
+    exists x, xm, L, U. split; [|exact E].
+    apply (IsRing_ext (fun p => In p (x :: y :: t))); [exact Hm|exact HR].
+Qed.
+
+(* ------------------------------------------------------------------ the exported statements *)
+Lemma hull_nil : hull [] = [].
+Proof. reflexivity. Qed.
+
+(* one distinct point *)
+Lemma hull_one_point l x : In x l -> (forall p, In p l -> p = x) -> hull l = [x].
+Proof.
+  intros Hx Hall. destruct (hull_cases l) as [[-> _]|[(x' & Hx' & _ & E)|(x0 & xm & L & U & HR & _)]].
+  - destruct Hx.
+  - rewrite E. f_equal. apply Hall, Hx'.
+  - exfalso. destruct HR as [_ _ H0 Hm Hlt _ _].
+    apply Hall in H0, Hm. subst. apply (lt2_irrefl x Hlt).
+Qed.
+
+Lemma hull_ring l a b : In a l -> In b l -> a <> b ->
+  exists x0 xm L U, IsRing (fun p => In p l) x0 xm L U /\ hull l = ring x0 xm L U.
+Proof.
+  intros Ha Hb Hab. destruct (hull_cases l) as [[-> _]|[(x & _ & Hall & _)|H]].
+  - destruct Ha.
+  - exfalso. apply Hab. rewrite (Hall a Ha), (Hall b Hb). reflexivity.
+  - exact H.
+Qed.
+
+(* closed: first vertex = last vertex, as soon as there are two distinct inputs; and the ring
+   starts at the lexicographically smallest input *)
+Lemma hull_closed l a b : In a l -> In b l -> a <> b ->
+  exists v mid, hull l = v :: mid ++ [v] /\ mid <> [] /\ In v l /\ (forall p, In p l -> le2 v p).
+Proof.
+  intros Ha Hb Hab. destruct (hull_ring l a b Ha Hb Hab) as (x0 & xm & L & U & HR & E).
+  exists x0, (L ++ xm :: U). split; [|split; [|split]].
+  - rewrite E. unfold ring. rewrite <- app_assoc. reflexivity.
+  - intros H. apply app_eq_nil in H. destruct H; discriminate.
+  - apply (ir_0 _ _ _ _ _ HR).
+  - intros p Hp. destruct (ir_min _ _ _ _ _ HR p Hp) as [->|H]; [right; reflexivity|left; exact H].
+Qed.
+
+Lemma removelast_ring x0 xm L U : removelast (ring x0 xm L U) = x0 :: L ++ xm :: U.
+Proof.
+  unfold ring.
+  replace (x0 :: L ++ xm :: U ++ [x0]) with ((x0 :: L ++ xm :: U) ++ [x0]).
+  - apply removelast_last.
+  - cbn. rewrite <- app_assoc. reflexivity.
+Qed.
+
+(* no repeated vertex *)
+Lemma hull_nodup l : NoDup (removelast (hull l)).
+Proof.
+  destruct (hull_cases l) as [[_ E]|[(x & _ & _ & E)|(x0 & xm & L & U & HR & E)]]; rewrite E.
+  - constructor.
+  - constructor.
+  - rewrite removelast_ring. destruct HR. eapply ring_nodup; eassumption.
+Qed.
+
+(* containment: every input is on or to the left of every edge of the ring *)
+Lemma hull_contains l p : In p l ->
+  forall l1 a b l2, hull l = l1 ++ a :: b :: l2 -> cross a b p >= 0.
+Proof.
+  intros Hp l1 a b l2 E0.
+  destruct (hull_cases l) as [[_ E]|[(x & _ & _ & E)|(x0 & xm & L & U & HR & E)]]; rewrite E in E0.
+  - destruct l1; discriminate.
+  - destruct l1 as [|? [|? ?]]; discriminate.
+  - destruct HR. apply (ring_edges _ x0 xm L U ir_L0 ir_U0 l1 a b l2 E0 p Hp).
+Qed.
+
+(* strictly convex: every consecutive triple of the closed ring, continued by its second vertex,
+   is a strict left turn, as soon as the inputs are not all collinear *)
+Lemma hull_strict_left l :
+  (exists p q r, In p l /\ In q l /\ In r l /\ cross p q r <> 0) ->
+  Turns (hull l ++ [nth 1 (hull l) d0]).
+Proof.
+  intros Hnc. assert (Hnc' := Hnc). destruct Hnc' as (p & q & r & Hp & Hq & Hr & Hc).
+  destruct (hull_cases l) as [[-> _]|[(x & _ & Hall & _)|(x0 & xm & L & U & HR & E)]].
+  - destruct Hp.
+  - exfalso. apply Hc. rewrite (Hall p Hp), (Hall q Hq). apply cross_rep1.
+  - rewrite E.
+    replace (nth 1 (ring x0 xm L U) d0) with (hd d0 (L ++ [xm])).
+    + destruct HR. eapply ring_turns; eassumption.
+    + unfold ring. destruct L; reflexivity.
+Qed.
+
+(* the collinear case, exactly *)
+Lemma hull_collinear l a b : In a l -> In b l -> a <> b ->
+  (forall p q r, In p l -> In q l -> In r l -> cross p q r = 0) ->
+  exists lo hi, In lo l /\ In hi l /\ lt2 lo hi /\
+                (forall p, In p l -> le2 lo p /\ le2 p hi) /\ hull l = [lo; hi; lo].
+Proof.
+  intros Ha Hb Hab Hc. destruct (hull_ring l a b Ha Hb Hab) as (x0 & xm & L & U & HR & E).
+  exists x0, xm. destruct HR as [H1 H2 H3 H4 H5 H6 H7].
+  destruct (ring_collinear_nil _ x0 xm L U H1 H2 H3 H4 H6 H7 Hc) as [-> ->].
+  repeat split; try assumption.
+  - destruct (H6 p H) as [->|?]; [right; reflexivity|left; assumption].
+  - destruct (H7 p H) as [->|?]; [right; reflexivity|left; assumption].
+Qed.
+
+Lemma hull_three_collinear l a b c : hull l = [a; b; c] ->
+  forall p q r, In p l -> In q l -> In r l -> cross p q r = 0.
+Proof.
+  intros E0. destruct (hull_cases l) as [[_ E]|[(x & _ & _ & E)|(x0 & xm & L & U & HR & E)]];
+    rewrite E in E0; try discriminate.
+  destruct HR as [H1 H2 H3 H4 H5 H6 H7].
+  assert (L = [] /\ U = []) as [EL EU].
+  { unfold ring in E0. apply (f_equal (@length pt)) in E0. cbn in E0.
+    rewrite !app_length in E0. cbn in E0. rewrite app_length in E0. cbn in E0.
+    split; apply length_zero_iff_nil; lia. }
+  apply (ring_nil_collinear _ x0 xm L U H1 H2 H4 H5 H6 H7 EL EU).
+Qed.
+
+(* two distinct points *)
+Lemma hull_two_points l a b : In a l -> In b l -> lt2 a b ->
+  (forall p, In p l -> p = a \/ p = b) -> hull l = [a; b; a].
+Proof.
+  intros Ha Hb Hab Hall.
+  assert (Hne : a <> b) by (intros ->; apply (lt2_irrefl b Hab)).
+  destruct (hull_collinear l a b Ha Hb Hne) as (lo & hi & Hlo & Hhi & Hlt & Hbd & E).
+  - intros p q r Hp Hq Hr.
+    destruct (Hall p Hp) as [->| ->], (Hall q Hq) as [->| ->], (Hall r Hr) as [->| ->];
+      first [apply cross_rep1|apply cross_rep2|apply cross_rep3].
+  - rewrite E.
+    assert (lo = a /\ hi = b) as [-> ->]; [|reflexivity].
+    destruct (Hall lo Hlo) as [->| ->], (Hall hi Hhi) as [->| ->]; auto.
+    + exfalso. apply (lt2_irrefl a Hlt).
+    + exfalso. apply (lt2_asym a b Hab Hlt).
+    + exfalso. apply (lt2_irrefl b Hlt).
+Qed.
